@@ -92,4 +92,180 @@ theorem paste_drift_warp_cex :
     Warp.nnWarp (fun _ c => c) (1, 2048) ⟨1025 / 1024, 0, 0, 0, 1, 0⟩ (-1) 0 2000 = 2002 := by
   refine ⟨by decide +kernel, by decide +kernel, by decide +kernel⟩
 
+
+/-! ## paste eligibility: `_can_paste` -/
+
+/-- **Soundness of `paste_ok`.**  Pasting is reported only for transforms without rotation/shear
+(off-diagonal terms below `1e-10`), whose scale is within `stol` of an integer, and which — taken
+into the `rs`-fold overview (`rs` the read-shrink of that scale) — have both axis scales within
+`stol` of `±1` and both offsets within `ttol` of whole pixels. -/
+theorem can_paste_sound (A : Aff) (n stol ttol : Rat) (h : canPaste A n stol ttol = .ok true) :
+    rabs A.b < tol1em10 ∧ rabs A.d < tol1em10 ∧
+    (∃ ks : Int, rabs (min (scale2 A n).1 (scale2 A n).2 - ks) < stol) ∧
+    ∃ rs : Int, pickReadScale (min (scale2 A n).1 (scale2 A n).2) = .ok rs ∧ 1 ≤ rs ∧
+      rabs (rabs (overviewTr A rs).a - 1) < stol ∧ rabs (rabs (overviewTr A rs).e - 1) < stol ∧
+      (∃ kx : Int, rabs ((overviewTr A rs).c - kx) < ttol) ∧ (∃ ky : Int, rabs ((overviewTr A rs).f - ky) < ttol) := by
+  obtain ⟨rs, hc⟩ := (canPaste_true_iff A n stol ttol).mp h
+  have hst := hc.st
+  simp only [isAffineST, Bool.and_eq_true, decide_eq_true_eq] at hst
+  obtain ⟨ks, hks, _⟩ := isAlmostInt_spec _ _ hc.scaleInt
+  obtain ⟨kx, hkx, _⟩ := isAlmostInt_spec _ _ hc.tx
+  obtain ⟨ky, hky, _⟩ := isAlmostInt_spec _ _ hc.ty
+  exact ⟨hst.1, hst.2, ⟨ks, hks⟩, rs, hc.hrs, read_shrink_pos_int _ _ _ hc.hrs, hc.sx, hc.sy, ⟨kx, hkx⟩, ⟨ky, hky⟩⟩
+
+/-- **Rejection.**  Rotation or shear of `1e-10` or more, a scale `stol` or more away from every
+integer, an overview axis scale `stol` or more away from `±1`, or an overview offset `ttol` or more
+away from every whole pixel: pasting is never reported. -/
+theorem can_paste_rejects (A : Aff) (n stol ttol : Rat)
+    (h : rabs A.b ≥ tol1em10 ∨ rabs A.d ≥ tol1em10 ∨
+      (∀ ks : Int, rabs (min (scale2 A n).1 (scale2 A n).2 - ks) ≥ stol) ∨
+      (∀ rs : Int, pickReadScale (min (scale2 A n).1 (scale2 A n).2) = .ok rs →
+        (rabs (rabs (overviewTr A rs).a - 1) ≥ stol ∨ rabs (rabs (overviewTr A rs).e - 1) ≥ stol ∨
+         (∀ k : Int, rabs ((overviewTr A rs).c - k) ≥ ttol) ∨ (∀ k : Int, rabs ((overviewTr A rs).f - k) ≥ ttol)))) :
+    canPaste A n stol ttol ≠ .ok true := by
+  intro hc
+  obtain ⟨h1, h2, ⟨ks, h3⟩, rs, h4, _, h5, h6, ⟨kx, h7⟩, ⟨ky, h8⟩⟩ := can_paste_sound A n stol ttol hc
+  rcases h with h | h | h | h
+  · exact absurd h1 (not_lt.mpr h)
+  · exact absurd h2 (not_lt.mpr h)
+  · exact absurd h3 (not_lt.mpr (h ks))
+  · rcases h rs h4 with h | h | h | h
+    · exact absurd h5 (not_lt.mpr h)
+    · exact absurd h6 (not_lt.mpr h)
+    · exact absurd h7 (not_lt.mpr (h kx))
+    · exact absurd h8 (not_lt.mpr (h ky))
+
+/-- `_can_paste` never raises for a transform with a positive scale. -/
+theorem can_paste_total (A : Aff) (n stol ttol : Rat) (hn : 0 < min (scale2 A n).1 (scale2 A n).2) :
+    ∃ b, canPaste A n stol ttol = .ok b := by
+  unfold canPaste
+  by_cases c1 : isAffineST A = true
+  · simp only [c1, not_true_eq_false, if_false]
+    by_cases c2 : isAlmostInt (min (scale2 A n).1 (scale2 A n).2) stol = true
+    · simp only [c2, not_true_eq_false, if_false]
+      cases h3 : pickReadScale (min (scale2 A n).1 (scale2 A n).2) with
+      | error e => exact absurd ((read_shrink_error_iff _ _).mp ⟨e, h3⟩) (not_le.mpr hn)
+      | ok rs =>
+        simp only
+        split_ifs
+        · exact ⟨false, rfl⟩
+        · exact ⟨true, rfl⟩
+        · exact ⟨false, rfl⟩
+    · exact ⟨false, by simp [c2]⟩
+  · exact ⟨false, by simp [c1]⟩
+
+/-! ## the plan with `paste_ok` -/
+
+/-- **Read-shrink 1: the plan is `box_overlap` of a unit transform.**  With `paste_ok`, read-shrink 1
+and tolerances `stol, ttol ≤ ½`, the snapped transform `S = snap_affine A` has unit scales with the
+signs of `A`, whole-pixel offsets within `ttol` of those of `A`, and the planned regions are
+`box_overlap src dst S` — so `paste_eq_warp`, `paste_roi_shapes_equal`, `paste_dst_exact` apply. -/
+theorem plan_paste_snapped (src dst : Shape) (fwd A : Aff) (n ttol stol : Rat) (padding align : Option Int)
+    (p : Plan) (h : reprojectLinear src dst fwd A n ttol stol padding align = .ok p) (hp : p.pasteOk = true)
+    (hrs : p.readShrink = 1) (hstol : stol ≤ 1 / 2) :
+    ∃ tx ty : Int, IsUnitST (snapAffine A ttol stol) tx ty ∧
+      boxOverlap src dst (snapAffine A ttol stol) = .ok (p.roiSrc, p.roiDst) ∧
+      ((snapAffine A ttol stol).a < 0 ↔ A.a < 0) ∧ ((snapAffine A ttol stol).e < 0 ↔ A.e < 0) ∧
+      rabs (A.c - tx) < ttol ∧ rabs (A.f - ty) < ttol ∧
+      rabs (rabs A.a - 1) < stol ∧ rabs (rabs A.e - 1) < stol ∧ rabs A.b < tol1em10 ∧ rabs A.d < tol1em10 := by
+  obtain ⟨hcp, _, _, hbox⟩ := plan_paste_is_box src dst fwd A n ttol stol padding align p h hp
+  obtain ⟨h1, _, _, _⟩ := reprojectLinear_cases h
+  obtain ⟨rs, hc⟩ := (canPaste_true_iff A n stol ttol).mp hcp
+  have hrs1 : rs = 1 := by
+    have := hc.hrs; rw [h1, hrs] at this
+    simp only [Except.ok.injEq] at this; exact this.symm
+  subst hrs1
+  have hov : overviewTr A 1 = A := by
+    obtain ⟨a, b, c, d, e, f⟩ := A
+    simp [overviewTr, Aff.scale, Aff.mul_def, Aff.mul]
+  have hsx := hc.sx; have hsy := hc.sy; have htx := hc.tx; have hty := hc.ty
+  rw [hov] at hsx hsy htx hty
+  have hst := hc.st
+  simp only [isAffineST, Bool.and_eq_true, decide_eq_true_eq] at hst
+  obtain ⟨kx, hkx, mkx⟩ := isAlmostInt_spec _ _ htx
+  obtain ⟨ky, hky, mky⟩ := isAlmostInt_spec _ _ hty
+  have htol : tol1em10 < tol1em8 := by decide +kernel
+  have hsnap : snapAffine A ttol stol =
+      ⟨if A.a < 0 then -1 else 1, 0, (kx : Rat), 0, if A.e < 0 then -1 else 1, (ky : Rat)⟩ := by
+    unfold snapAffine
+    rw [if_neg (by
+      rintro (hh | hh)
+      · exact absurd (lt_trans hst.1 htol) (not_lt.mpr (le_of_lt hh))
+      · exact absurd (lt_trans hst.2 htol) (not_lt.mpr (le_of_lt hh)))]
+    rw [snapScale_unit A.a stol hstol hsx, snapScale_unit A.e stol hstol hsy, mkx, mky]
+  have hbox' : boxOverlap src dst (snapAffine A ttol stol) = .ok (p.roiSrc, p.roiDst) := by
+    rcases hbox with ⟨_, hb⟩ | ⟨hne, _⟩
+    · exact hb
+    · exact absurd hrs hne
+  refine ⟨kx, ky, ?_, hbox', ?_, ?_, hkx, hky, hsx, hsy, hst.1, hst.2⟩
+  · rw [hsnap]
+    refine ⟨rfl, rfl, ?_, ?_, rfl, rfl⟩
+    · simp only; split_ifs <;> simp
+    · simp only; split_ifs <;> simp
+  · rw [hsnap]; simp only; split_ifs with c <;> simp [c]
+  · rw [hsnap]; simp only; split_ifs with c <;> simp [c]
+
+/-- **Headline: paste = nearest-neighbour warp for whole-pixel shifts with a sub-pixel residue,
+mirrored or not.**  If the true transform has exactly unit scales (`A.a, A.e ∈ {1, -1}`, no
+rotation) and the plan reports `paste_ok` with read-shrink 1 (so the offsets are within
+`ttol ≤ ½` of whole pixels), then for *every* destination pixel and every pixel type the pasted image
+equals the nearest-neighbour warp of the whole source under the true transform. -/
+theorem plan_paste_eq_warp_shift {α : Type} (img : Int → Int → α) (nodata : α) (src dst : Shape) (fwd A : Aff)
+    (n ttol stol : Rat) (padding align : Option Int) (p : Plan)
+    (h : reprojectLinear src dst fwd A n ttol stol padding align = .ok p) (hp : p.pasteOk = true)
+    (hrs : p.readShrink = 1) (hstol : stol ≤ 1 / 2) (httol : ttol ≤ 1 / 2)
+    (hs : 0 ≤ src.1 ∧ 0 ≤ src.2) (hd : 0 ≤ dst.1 ∧ 0 ≤ dst.2)
+    (ha : A.a = 1 ∨ A.a = -1) (he : A.e = 1 ∨ A.e = -1) (hb : A.b = 0) (hd' : A.d = 0)
+    (dy dx : Int) (hdy : 0 ≤ dy ∧ dy < dst.1) (hdx : 0 ≤ dx ∧ dx < dst.2) :
+    pasted img (decide (A.e < 0)) (decide (A.a < 0)) p.roiSrc p.roiDst nodata dy dx =
+      Warp.nnWarp img src A nodata dy dx := by
+  obtain ⟨tx, ty, hS, hbox, sa, se, hcx, hcy, _⟩ :=
+    plan_paste_snapped src dst fwd A n ttol stol padding align p h hp hrs hstol
+  have key := paste_eq_warp img nodata src dst (snapAffine A ttol stol) A tx ty hS hs hd _ hbox dy dx hdy hdx
+  have eSa : (snapAffine A ttol stol).a = A.a := by
+    rcases hS.a1 with e | e <;> rcases ha with e' | e' <;> rw [e, e'] at sa <;> rw [e, e'] <;> norm_num at sa
+  have eSe : (snapAffine A ttol stol).e = A.e := by
+    rcases hS.e1 with e | e <;> rcases he with e' | e' <;> rw [e, e'] at se <;> rw [e, e'] <;> norm_num at se
+  have k := key
+    (by
+      simp only [Aff.apply, hS.b0, hS.c, eSa, hb]
+      have : A.a * ((dx : Rat) + 1 / 2) + 0 * ((dy : Rat) + 1 / 2) + A.c - (A.a * ((dx : Rat) + 1 / 2) + 0 * ((dy : Rat) + 1 / 2) + (tx : Rat))
+          = A.c - tx := by ring
+      rw [this]; exact lt_of_lt_of_le hcx httol)
+    (by
+      simp only [Aff.apply, hS.d0, hS.f, eSe, hd']
+      have : 0 * ((dx : Rat) + 1 / 2) + A.e * ((dy : Rat) + 1 / 2) + A.f - (0 * ((dx : Rat) + 1 / 2) + A.e * ((dy : Rat) + 1 / 2) + (ty : Rat))
+          = A.f - ty := by ring
+      rw [this]; exact lt_of_lt_of_le hcy httol)
+  rw [eSa, eSe] at k
+  exact k
+
+/-- **Read-shrink `k > 1`.**  The planned source region is exactly `k` times a region of the `k`-fold
+overview (`scaled_up_roi`), and that overview region and the destination region come from one
+`box_overlap` of the snapped overview transform. -/
+theorem shrink_roi_scaled (src dst : Shape) (fwd A : Aff) (n ttol stol : Rat) (padding align : Option Int)
+    (p : Plan) (h : reprojectLinear src dst fwd A n ttol stol padding align = .ok p) (hp : p.pasteOk = true)
+    (hrs : p.readShrink ≠ 1) :
+    ∃ r' : ROI,
+      p.roiSrc = (⟨r'.1.start * p.readShrink, r'.1.stop * p.readShrink⟩, ⟨r'.2.start * p.readShrink, r'.2.stop * p.readShrink⟩) ∧
+      boxOverlap (zoomOutDim src.1 p.readShrink, zoomOutDim src.2 p.readShrink) dst
+        (snapAffine (overviewTr A p.readShrink) ttol stol) = .ok (r', p.roiDst) ∧
+      (∀ tx ty, IsUnitST (snapAffine (overviewTr A p.readShrink) ttol stol) tx ty → 0 ≤ dst.1 ∧ 0 ≤ dst.2 →
+        r'.1.stop - r'.1.start = p.roiDst.1.stop - p.roiDst.1.start ∧
+        r'.2.stop - r'.2.start = p.roiDst.2.stop - p.roiDst.2.start) := by
+  obtain ⟨_, _, _, hbox⟩ := plan_paste_is_box src dst fwd A n ttol stol padding align p h hp
+  rcases hbox with ⟨h1, _⟩ | ⟨_, r', hb, hsrc⟩
+  · exact absurd h1 hrs
+  · refine ⟨r', ?_, hb, fun tx ty hS hd => ?_⟩
+    · rw [hsrc]; simp [scaledUpROI, scaledUpSlice]
+    · have := paste_roi_shapes_equal (zoomOutDim src.1 p.readShrink, zoomOutDim src.2 p.readShrink) dst _ tx ty hS
+        ⟨by simp only [zoomOutDim]; omega, by simp only [zoomOutDim]; omega⟩ hd _ hb
+      exact this
+
+/-! ## non-vacuity -/
+
+example : canPaste ⟨1, 0, 3, 0, -1, 5 + 1 / 64⟩ 1 tol1em3 (1 / 20) = .ok true := by decide +kernel
+example : canPaste ⟨1, 0, 3, 0, -1, 5 + 1 / 16⟩ 1 tol1em3 (1 / 20) = .ok false := by decide +kernel
+example : canPaste ⟨1, 1 / 1024, 3, 0, 1, 5⟩ 1 tol1em3 (1 / 20) = .ok false := by decide +kernel
+
 end OdcGeo.C10
